@@ -1,6 +1,7 @@
 package props
 
 import (
+	"go/token"
 	"fmt"
 	"go/types"
 	"sort"
@@ -18,7 +19,7 @@ func init() {
 		Title: "Built-in operators decide exactly their documented predicates",
 		Explanation: "Decides structural agreement between operators, not the predicates themselves: R1 capture bound agreement: every loop that stores captures stores a value for every index it visits (a group that did not participate is stored as empty, never skipped) and stops after index 9 (the bound constant extracted from each loop's exit test is 10 everywhere), so TX.0-9 are filled alike by @rx, binary @rx, @pm and @validateNid; " +
 			"R2 macro re-expansion: every operator holding a macro argument expands it with the transaction inside Evaluate and never at construction, and keeps no expanded copy; R3 single negation point (C01.R3 re-applied); R4 look-ahead and fixed-position reads in the operators are length-guarded (A9 shapes); " +
-			"R5 the @pm family builds its matcher and its minimum-length shortcut from the same phrase list, the matcher is ASCII-case-insensitive, and the minimum-length test can only reject; R6 @ipMatch gives a bare address the host mask of its family: /32 only when the entry contains no ':' (path query with infeasible-branch pruning), /128 only when it does.",
+			"R5 the @pm family builds its matcher and its minimum-length shortcut from the same phrase list, the matcher is ASCII-case-insensitive, and the minimum-length test can only reject; R6 @ipMatch gives a bare address the host mask of its family: /32 only when the entry contains no ':' (path query with infeasible-branch pruning), /128 only when it does; R7 the numeric comparisons (@eq @ge @gt @le @lt) are siblings: each returns one comparison of the same two parsed numbers (input and expanded argument, parsed by the same function with the same error handling), so they differ only in the comparison operator; R2 also: every return of a macro-argument operator's Evaluate follows the expansion (nothing is decided from the argument text as written).",
 		NotDecided: []string{
 			"every predicate itself (substring search, CIDR membership, byte ranges, UTF-8 validation, RE2 semantics)",
 			"numeric parsing leniency of the comparison operators (non-numeric text counts as 0)",
@@ -180,6 +181,21 @@ func runC15(c *an.Ctx) {
 							}
 						})
 						c.Check(expanded, "R2", "@"+opName+" expands its argument at evaluation time", ev.Pos(), "o."+mf+".Expand(tx) in Evaluate", "@"+opName+" does not expand its macro argument inside Evaluate: %{...} would be frozen at compile time or shared between transactions")
+						// ... and nothing is decided before the expansion: every return of Evaluate follows it (a shortcut
+						// computed from the argument text as written, e.g. its length, says nothing about the expanded value)
+						if expanded {
+							w := an.FindPath(an.PathQuery{Fn: ev,
+								Stop: func(x ssa.Instruction) bool {
+									xc := an.CallOf(x)
+									return xc != nil && xc.IsInvoke() && xc.Method.Name() == "Expand" && an.Expr(xc.Value) == "o."+mf
+								},
+								Target: func(x ssa.Instruction) bool { _, ok := x.(*ssa.Return); return ok }})
+							if w != nil {
+								c.Bad("R2", "@"+opName+" decides nothing before expanding its argument", w.Target.Pos(), "@"+opName+".Evaluate can return without having expanded "+mf+": the verdict on that path depends on the argument as written in the rule (macro text), not on its value for this transaction", c.P.TrailString(w)...)
+							} else {
+								c.Ok("R2", "@"+opName+" decides nothing before expanding its argument", ev.Pos(), "every return of Evaluate follows "+mf+".Expand(tx)")
+							}
+						}
 					}
 					// no Expand at construction
 					early := false
@@ -263,6 +279,10 @@ func runC15(c *an.Ctx) {
 		c.Check(ok, "R5", "@pm: the minimum-length test only rejects", pe.Pos(), "return false under len(value) < minLen", "the minimum-length shortcut of @pm does not simply reject")
 	}
 
+	// ---- R7 the numeric comparison operators are siblings: they compare the same two parsed numbers and differ
+	// only in the comparison itself (a value parsed differently by one of them makes @gt disagree with @ge/!@le).
+	c15NumericSiblings(c)
+
 	// ---- R6 @ipMatch masks
 	if im := c.Fn("R6", "internal/operators.newIPMatch"); im != nil {
 		n := 0
@@ -337,4 +357,59 @@ var _ = fmt.Sprint
 // c15CaptureFilterAllow: capture loops that store only some of the candidates they visit, by design.
 var c15CaptureFilterAllow = map[string]string{
 	"internal/operators.(*validateNid).Evaluate": "the loop visits regex candidates and captures only those that pass the checksum; a candidate that fails is not a match and has no capture",
+}
+
+func c15NumericSiblings(c *an.Ctx) {
+	type sk struct {
+		name, op, l, r string
+		pos            token.Pos
+	}
+	var sks []sk
+	for _, n := range []string{"eq", "ge", "gt", "le", "lt"} {
+		fn := c.Fn("R7", "internal/operators.(*"+n+").Evaluate")
+		if fn == nil {
+			continue
+		}
+		c.FuncsAnalysed[fn] = true
+		var rets []*ssa.Return
+		an.Instrs(fn, func(in ssa.Instruction) {
+			if r, ok := in.(*ssa.Return); ok {
+				rets = append(rets, r)
+			}
+		})
+		if len(rets) != 1 {
+			c.Bad("R7", "@"+n+" returns one comparison", fn.Pos(), fmt.Sprintf("@%s.Evaluate has %d return sites; its siblings return a single comparison of the two parsed numbers", n, len(rets)))
+			continue
+		}
+		b, ok := rets[0].Results[0].(*ssa.BinOp)
+		if !ok {
+			c.Bad("R7", "@"+n+" returns one comparison", rets[0].Pos(), "the result of @"+n+" is "+tempName.ReplaceAllString(an.Expr(rets[0].Results[0]), "")+", not a comparison of the two parsed numbers")
+			continue
+		}
+		c.Ok("R7", "@"+n+" returns one comparison", rets[0].Pos(), tempName.ReplaceAllString(an.Expr(b), ""))
+		l, r := tempName.ReplaceAllString(an.Expr(b.X), ""), tempName.ReplaceAllString(an.Expr(b.Y), "")
+		if l > r {
+			l, r = r, l
+		}
+		sks = append(sks, sk{n, b.Op.String(), l, r, rets[0].Pos()})
+	}
+	c.MinCount("R7", "numeric comparison operators", len(sks), 5)
+	if len(sks) == 0 {
+		return
+	}
+	// majority operand pair is the reference
+	count := map[string]int{}
+	for _, s := range sks {
+		count[s.l+" | "+s.r]++
+	}
+	ref, best := "", 0
+	for k, v := range count {
+		if v > best || (v == best && k < ref) {
+			ref, best = k, v
+		}
+	}
+	for _, s := range sks {
+		c.Check(s.l+" | "+s.r == ref, "R7", "@"+s.name+" compares the same two parsed numbers as its siblings", s.pos, ref,
+			"@"+s.name+" compares "+s.l+" with "+s.r+" while its siblings compare "+ref+": for inputs on which the two ways of parsing differ (non-numeric text, numbers outside the int range) the comparison operators contradict each other")
+	}
 }
